@@ -644,4 +644,26 @@ theorem machine_eq_oracle_F1 (g : Graph) (ctx : Ctx) (o : Obj) (c : Chk) (hF : F
 -- non-vacuity: the recursive type / cyclic graph instance of Props/C08.lean
 example : Frag.inF1 nodeCtx (.named "node") = true := by decide
 
+/-- (C08e) completeness against the judge's executable oracle, ALL well-formed specifications: what the oracle
+    accepts the machine (code as it is) accepts; a disagreement is a false accept -/
+theorem machine_complete_oracle (g : Graph) (ctx : Ctx) (o : Obj) (c : Chk) (hwf : Frag.wfSpec ctx c = true) :
+    gfp g ctx o c = true →
+      verdict (checkTypeFuel Fix.tree g ctx (Term.workBound Fix.tree g ctx o c) o c) = true := by
+  intro h
+  exact (machine_eq_conforms g ctx o c).1 hwf ((gfp_iff_Conforms g ctx o c).mp h)
+
+-- non-vacuity: the specification of the memo-leak finding with a conforming object (second alternative), and a
+-- cyclic graph whose cycle passes through a disjunction-typed edge behind a name
+example : Frag.wfSpec [] (.disj Attr.dflt (alts [alt1, alt2])) = true ∧
+    gfp [] [] (.dict (.cons kA (.int 1) .nil)) (.disj Attr.dflt (alts [alt1, alt2])) = true := by decide
+def loopCtx : Ctx :=
+  [("n", .dict Attr.dflt (.cons [0x4b] .required (.named "k") .nil)),
+   ("k", .disj ⟨none, .required⟩ (alts [.prim Attr.dflt .integer, .named "n"]))]
+def loopG : Graph := [((1, 0), .dict (.cons [0x4b] (.ref 1 0) .nil))]
+example : Frag.wfSpec loopCtx (.named "n") = true ∧ Frag.inF1 loopCtx (.named "n") = false ∧
+    gfp loopG loopCtx (.ref 1 0) (.named "n") = true := by decide
+example : verdict (checkTypeFuel Fix.tree loopG loopCtx
+    (Term.workBound Fix.tree loopG loopCtx (.ref 1 0) (.named "n")) (.ref 1 0) (.named "n")) = true :=
+  machine_complete_oracle _ _ _ _ (by decide) (by decide)
+
 end Parsley.C08
